@@ -149,4 +149,31 @@ theorem C04_disc_readback_partial (fo : FloatOracle) (x : DI.DiscInfo) (lines : 
     simp only [DI.deserialize, hts, hdesc, hq, harch, h1, h2, h3, Bool.false_or, Except.map, hv]
     simp [hv]
 
+/-! ### non-vacuity -/
+def C04_exTree : TreeInfo :=
+  { headerVersion := "0.0".toList, release := ⟨"Fedora".toList, "F".toList, "21".toList⟩, isLayered := true,
+    baseProduct := some ⟨"Base".toList, "B".toList, "7".toList⟩,
+    tree := ⟨"x86_64".toList, .int 1417653911, ["xen".toList, "x86_64".toList]⟩,
+    variants := [.mk "Server-optional".toList "optional".toList "Server-optional".toList "opt".toList "optional".toList [] [],
+                 .mk "Server".toList "Server".toList "Server".toList "Server".toList "variant".toList
+                    [("packages".toList, "Packages".toList), ("identity".toList, "id.pem".toList)]
+                    [.mk "HA".toList "HA".toList "Server-HA".toList "HA".toList "addon".toList []
+                      [.mk "X".toList "X".toList "Server-HA-X".toList "X".toList "variant".toList [] []]]],
+    checksums := [("images/boot.iso".toList, "sha256".toList, "ab".toList)],
+    images := [("x86_64".toList, [("kernel".toList, "images/vmlinuz".toList)])],
+    mainimage := some "LiveOS/squashfs.img".toList, instimage := none, discnum := some 1, totaldiscs := some 2 }
+
+/-- the hypothesis of `C04_tree_written` / `C04_release_readback` is satisfiable by a layered tree with a dashed
+top-level UID and three levels of nesting; the written text is representable -/
+example : (serialize C04_exTree none).toBool = true := by decide +kernel
+example : (serialize C04_exTree none).toOption.map (fun d => IniText.Representable d) = some true := by decide +kernel
+example : (subVs none C04_exTree.variants).length = 4 := by decide +kernel
+
+/-- the hypotheses of `C04_disc_readback_partial` are satisfiable -/
+example : DiscsRT (.nums [1, 2, 10]) := ⟨by decide, by decide, by rfl⟩
+example : DiscsRT .all := trivial
+example : Str.strip "Fedora 21".toList = "Fedora 21".toList ∧ DI.stripQuotes "Fedora 21".toList = "Fedora 21".toList := by decide
+example : (DI.serialize ⟨"1417653911.123".toList, "Fedora 21".toList, "x86_64".toList, .nums [1, 2]⟩).toBool = true := by
+  decide +kernel
+
 end PM
